@@ -81,6 +81,18 @@ func c08Scenarios(tier string) []*Scenario {
 			add(tr, "", RPC{Kind: "cs", Client: []string{"S0", "C"}, Client2: []string{"R*", "R"}, Handler: []string{"r", "s0", "s1", "ret:ok"}})
 		}
 	}
+	// the decoder as a scheduling point (option "codec"): between taking the response off the wire and
+	// looking for a second one the client decodes, and meanwhile the context may end and the reader finish
+	for _, tr := range []string{"http", "inproc"} {
+		for _, h := range [][]string{{"r*", "s0", "ret:ok"}, {"r*", "s0", "s1", "ret:ok"}, {"r*", "s0", "ret:st:5"}} {
+			sc := sc1("C08", "cancel|codec|"+rpcName(RPC{Kind: "cs", Client: []string{"S0", "C", "R*", "R"}, Handler: h}), tr, "cancel", RPC{Kind: "cs", Client: []string{"S0", "C", "R*", "R"}, Handler: h})
+			sc.Opts = "codec"
+			if tr == "inproc" {
+				sc.Cloner = "yield"
+			}
+			out = append(out, sc)
+		}
+	}
 	// HTTP: single-request methods (server-streaming) given 0, 1, 2 request frames
 	for _, c := range [][]string{{"C", "R*"}, {"S0", "C", "R*"}, {"S0", "S1", "C", "R*"}, {"S0", "E1", "C", "R*"}, {"E0", "C", "R*"}, {"E0", "E1", "C", "R*"}} {
 		add("http", "", RPC{Kind: "ss", Client: c, Handler: []string{"r", "r", "s0", "ret:ok"}})
